@@ -220,15 +220,43 @@ def run_case(case):
                     viol('parser:base:name', text=text, got=bb.name)
                 got = bb.conditionals
             else:
-                text = (',\n' if rng.random() < 0.3 else ',').join(fml.cond_text(B, A, style, rng) for (B, A) in conds)
-                assert clsyntax.is_query_list(text), text
-                res['evals'] += 1
-                bump('query_lists_parsed')
-                try:
-                    got = parse_queries(text).conditionals
-                except Exception as e:
-                    viol('parser:queries:well-formed-list-rejected', text=text, error=str(e)[:150])
-                    continue
+                parts = [fml.cond_text(B, A, style, rng) for (B, A) in conds]
+                sep = ',\n' if rng.random() < 0.3 else ','
+                if len(parts) >= 2 and rng.random() < 0.25:
+                    # two block comments in one text (everything between them must survive)
+                    parts[0] = parts[0] + ' /* one */ '
+                    parts[1] = ' /* two ( | */ ' + parts[1]
+                    bump('query_lists_with_two_block_comments')
+                text = sep.join(parts)
+                layout = 'bare'
+                if rng.random() < 0.25:
+                    # the same list in the full 'signature ... conditionals name{...}' layout
+                    text = fml.base_text(s, conds, 'queries', style, rng)
+                    layout = 'full'
+                    bump('query_lists_in_full_layout')
+                if rng.random() < 0.35:
+                    text = noise(rng, text)
+                if layout == 'full':
+                    assert clsyntax.is_base(text), text
+                    res['evals'] += 1
+                    bump('query_lists_parsed')
+                    try:
+                        got = parse_queries(text).conditionals
+                    except Exception as e:
+                        viol('parser:queries:well-formed-full-layout-rejected', text=text, error=str(e)[:150])
+                        continue
+                    if list(got.keys()) != list(range(1, len(conds) + 1)):
+                        viol('parser:queries:keys:full-layout', text=text, got=list(got.keys()), n=len(conds))
+                        continue
+                if layout == 'bare':
+                    assert clsyntax.is_query_list(text), text
+                    res['evals'] += 1
+                    bump('query_lists_parsed')
+                    try:
+                        got = parse_queries(text).conditionals
+                    except Exception as e:
+                        viol('parser:queries:well-formed-list-rejected', text=text, error=str(e)[:150])
+                        continue
             if list(got.keys()) != list(range(1, len(conds) + 1)):
                 viol('parser:%s:keys' % kind, text=text, got=list(got.keys()), n=len(conds))
                 continue
